@@ -78,6 +78,7 @@ static const double WIN_OK_LO = 0.5, WIN_OK_HI = 2.0, WIN_INV_LO = 2.0, WIN_INV_
 static const char * MDL_TARGET    = "e-";
 static const int MDL_RANK         = 0;
 static const double MDL_LONGITUDE = 30.0, MDL_COLATITUDE = 60.0, MDL_APERTURE = 25.0; // degrees
+static const double MDL_APERTURE2 = 8.0; // degrees: second half-angle of the rectangular cut (mdl = "rect")
 static const char * BAD_CATEGORY  = "invalid";
 static const double P1[3] = {1.0, 2.0, 3.0}, P2[3] = {-4.5, 0.0, 7.25}; // mm
 
@@ -202,13 +203,14 @@ static bool to_interface(const Cfg & c, CI & ci)
     ci.dbd_min_energy_MeV = WIN_INV_LO;
     ci.dbd_max_energy_MeV = WIN_INV_HI;
   }
-  if (c.mdl == "on") {
+  if (c.mdl == "on" || c.mdl == "rect") {
     ci.use_mdl             = true;
     ci.mdl_target_name     = MDL_TARGET;
     ci.mdl_target_rank     = MDL_RANK;
     ci.mdl_cone_longitude  = MDL_LONGITUDE;
     ci.mdl_cone_colatitude = MDL_COLATITUDE;
     ci.mdl_cone_aperture   = MDL_APERTURE;
+    if (c.mdl == "rect") ci.mdl_cone_aperture2 = MDL_APERTURE2;
   }
   return true;
 }
@@ -281,7 +283,7 @@ static const CoreEvents & core_events(const Cfg & c, int upto_idx)
       if (c.win == "ok") decay0.set_decay_dbd_esum_range(WIN_OK_LO, WIN_OK_HI);
       if (c.win == "inv") decay0.set_decay_dbd_esum_range(WIN_INV_LO, WIN_INV_HI);
     }
-    if (c.mdl == "on") {
+    if (c.mdl == "on" || c.mdl == "rect") {
       auto op = std::make_shared<bxdecay0::momentum_direction_lock_event_op>(false);
       bxdecay0::momentum_direction_lock_event_op::config_type mc;
       mc.particle_label       = MDL_TARGET;
@@ -289,6 +291,7 @@ static const CoreEvents & core_events(const Cfg & c, int upto_idx)
       mc.cone_phi_degree      = MDL_LONGITUDE;
       mc.cone_theta_degree    = MDL_COLATITUDE;
       mc.cone_aperture_degree = MDL_APERTURE;
+      if (c.mdl == "rect") mc.cone_aperture2_degree = MDL_APERTURE2;
       op->set(mc);
       decay0.add_operation(op);
     }
@@ -1065,7 +1068,7 @@ static std::pair<bool, std::string> core_tools_verdict(const Cfg & c, std::strin
       args.push_back(std::to_string(c.win == "ok" ? WIN_OK_HI : WIN_INV_HI));
     }
   }
-  if (c.mdl == "on") {
+  if (c.mdl == "on" || c.mdl == "rect") { // the command line has no option for the second half-angle: same verdict
     args.push_back("--pgop-mdl-particle");
     args.push_back(MDL_TARGET);
     args.push_back("--pgop-mdl-rank");
